@@ -2610,5 +2610,71 @@ pub fn directed(r: &mut Rng) -> Vec<Scenario> {
         }
         out.push(sc);
     }
+    // (scenarios added late are appended here: the ones above keep their random choices)
+    // stake transactions in the last block of an epoch and the first of the next: "starts in a future epoch" is judged
+    // against the epoch of the block the transaction is in
+    {
+        let mut sc = Scenario::new("d_stake_at_epoch_boundary", r, NetID::Custom02, 1000, 1 << 20);
+        let at = sc.at();
+        sc.fixed_change = Some(at);
+        let db = Database::new(InMemoryCas::default());
+        let cfg = GenesisConfig { network: NetID::Custom02, init_coindata: CoinData { covhash: at, value: CoinValue(1 << 50), denom: Denom::Mel, additional_data: Bytes::new() }, stakes: BTreeMap::new(), init_fee_pool: CoinValue(1 << 20), init_fee_multiplier: 1000 };
+        sc.mode = Mode::U(cfg.realize(&db));
+        sc.db = db;
+        sc.jump_to_height(STAKE_EPOCH - 3);
+        sc.op_next();
+        let f = sc.fund(r, &[(1 << 40, Denom::Mel), (1 << 40, Denom::Mel), (1 << 40, Denom::Mel), (1 << 40, Denom::Mel), (1 << 30, Denom::Sym), (1 << 30, Denom::Sym), (1 << 30, Denom::Sym), (1 << 30, Denom::Sym)]);
+        sc.op_batch(&[f.clone()]);
+        sc.block_end(None);
+        let fc = |i: u8| (CoinID::new(f.hash_nosigs(), i), CoinDataHeight { coin_data: f.outputs[i as usize].clone(), height: BlockHeight(STAKE_EPOCH - 2) });
+        let mut k = 0u8;
+        for _ in 0..2 {
+            let epoch = sc.ustate().verif_height().0 / STAKE_EPOCH;
+            for (es, ee) in [(epoch + 1, epoch + 3), (epoch, epoch + 2)] {
+                let doc = StakeDoc { pubkey: sc.keys.pk[(k % 3) as usize], e_start: es, e_post_end: ee, syms_staked: CoinValue(1 << 20) };
+                let mut st = Transaction::new(TxKind::Stake);
+                st.outputs = vec![sc.cd(at, 1 << 20, Denom::Sym), sc.cd(at, (1 << 30) - (1 << 20), Denom::Sym)];
+                st.data = Bytes::from(doc.stdcode());
+                let st = sc.finish_tx(r, st, &[fc(k), fc(4 + k)], 0, 0);
+                let before = sc.ustate().verif_stakes().get_stake(st.hash_nosigs()).is_some();
+                if sc.op_batch(&[st.clone()]) == 0 {
+                    let reg = sc.ustate().verif_stakes().get_stake(st.hash_nosigs()).is_some();
+                    if (es > epoch) != reg && !before { sc.viol("C13", format!("a stake for epochs [{}, {}) accepted in epoch {} is {}registered", es, ee, epoch, if reg { "" } else { "not " })); }
+                }
+                k += 1;
+            }
+            if !sc.block_end(None) { break; }
+        }
+        out.push(sc);
+    }
+    // one swap that pays in exactly as much as all swaps of the other direction together, next to another swap of
+    // its own direction - in both orientations of the pool
+    {
+        let mut sc = base("d_swap_equal_to_opposite_total", r, NetID::Custom02, 1000);
+        let at = sc.at();
+        sc.fixed_change = Some(at);
+        sc.block_end(None);
+        let mut want = vec![(1u128 << 42, Denom::Mel); 8];
+        want.extend(vec![(1u128 << 40, Denom::Erg); 4]);
+        let f = sc.fund(r, &want);
+        sc.op_batch(&[f.clone()]);
+        sc.block_end(None);
+        let fc = |i: u8| (CoinID::new(f.hash_nosigs(), i), CoinDataHeight { coin_data: f.outputs[i as usize].clone(), height: BlockHeight(1) });
+        let key = PoolKey::new(Denom::Mel, Denom::Erg).to_bytes().to_vec();
+        let t = sc.mk(r, TxKind::Swap, &[fc(0)], vec![sc.cd(at, 300_000_000, Denom::Mel)], key.clone());
+        sc.op_batch(&[t]);
+        sc.block_end(None);
+        let mel = |sc: &mut Scenario, r: &mut Rng, i: u8, amt: u128| { let mut o = sc.cd(at, amt, Denom::Mel); o.additional_data = Bytes::from(vec![i]); sc.mk(r, TxKind::Swap, &[fc(i)], vec![o], key.clone()) };
+        let erg = |sc: &mut Scenario, r: &mut Rng, i: u8, j: u8, amt: u128| { let mut o = sc.cd(at, amt, Denom::Erg); o.additional_data = Bytes::from(vec![i]); sc.mk(r, TxKind::Swap, &[fc(i), fc(j)], vec![o, sc.cd(at, (1 << 40) - amt, Denom::Erg)], key.clone()) };
+        // one MEL swap of 60000; ERG swaps of 60000 (= the MEL total) and 12345
+        let b1 = vec![mel(&mut sc, r, 1, 60_000), erg(&mut sc, r, 2, 8, 60_000), erg(&mut sc, r, 3, 9, 12_345)];
+        sc.op_batch(&b1);
+        sc.block_end(None);
+        // one ERG swap of 70000; MEL swaps of 70000 (= the ERG total) and 4321; and a zero-valued one beside them
+        let b2 = vec![erg(&mut sc, r, 4, 10, 70_000), mel(&mut sc, r, 5, 70_000), mel(&mut sc, r, 6, 4_321)];
+        sc.op_batch(&b2);
+        sc.block_end(None);
+        out.push(sc);
+    }
     out
 }
